@@ -524,3 +524,43 @@ Proof.
     split; [exact HI2|]. now apply (shrink_trans g g1 g2).
   - split; [exact HI|apply shrink_refl].
 Qed.
+
+(* the same with an invariant that sees the traversal state *)
+Lemma dfs_fold_invariant_st {St} (nb : St -> nat -> list nat) (body : St -> nat -> option St)
+  (Q : St -> list nat -> list nat -> list nat -> Prop) :
+  (forall s nx rest disc fin, Q s (nx :: rest) disc fin -> mem nx disc = false ->
+     Q s (push_undiscovered (nx :: disc) (nx :: rest) (nb s nx)) (nx :: disc) fin) ->
+  (forall s nx rest disc fin, Q s (nx :: rest) disc fin -> mem nx disc = true -> mem nx fin = true ->
+     Q s rest disc fin) ->
+  (forall s nx rest disc fin s', Q s (nx :: rest) disc fin -> mem nx disc = true -> mem nx fin = false ->
+     body s nx = Some s' -> Q s' rest disc (nx :: fin)) ->
+  forall fuel s stack disc fin s', Q s stack disc fin ->
+    dfs_fold nb body fuel s stack disc fin = Some s' -> exists disc' fin', Q s' [] disc' fin'.
+Proof.
+  intros Hd Hp Hb. induction fuel as [|f IH]; intros s stack disc fin s' HQ H; [discriminate|].
+  cbn [dfs_fold] in H. destruct stack as [|nx rest]; [injection H as <-; now exists disc, fin|].
+  destruct (mem nx disc) eqn:Ed; cbn [negb] in H.
+  - destruct (mem nx fin) eqn:Ef.
+    + exact (IH _ _ _ _ _ (Hp _ _ _ _ _ HQ Ed Ef) H).
+    + destruct (body s nx) as [s1|] eqn:E; [|discriminate]. exact (IH _ _ _ _ _ (Hb _ _ _ _ _ _ HQ Ed Ef E) H).
+  - exact (IH _ _ _ _ _ (Hd _ _ _ _ _ HQ Ed) H).
+Qed.
+
+(* every neighbour is discovered or pushed *)
+Lemma push_cover disc succs : forall stack c, In c succs ->
+  mem c disc = true \/ In c (push_undiscovered disc stack succs).
+Proof.
+  unfold push_undiscovered. induction succs as [|x succs IH]; intros stack c Hc; [destruct Hc|]. cbn [fold_left].
+  destruct Hc as [->|Hc].
+  - destruct (mem c disc) eqn:E; [now left|]. right.
+    assert (Hmono : forall l st, In c st -> In c (fold_left (fun st succ => if mem succ disc then st else succ :: st) l st)).
+    { induction l as [|y l IHl]; intros st Hst; [exact Hst|]. cbn [fold_left]. apply IHl. destruct (mem y disc); [exact Hst|now right]. }
+    apply Hmono. now left.
+  - apply IH. exact Hc.
+Qed.
+
+Lemma push_keeps disc succs : forall stack c, In c stack -> In c (push_undiscovered disc stack succs).
+Proof.
+  unfold push_undiscovered. induction succs as [|x succs IH]; intros stack c Hc; [exact Hc|]. cbn [fold_left].
+  apply IH. destruct (mem x disc); [exact Hc|now right].
+Qed.
